@@ -92,8 +92,21 @@ def run(ctx, sess):
                         px = fn.path(strip_casts(x))
                         if px is not None and px.last_field() == 'tag' and const_of(y) == END and label != eq_label:
                             on_branch = True
-            ctx.ob('C19.1', on_branch, fn.name, 'jls_raw_open(.., "%s")' % m, c.where(),
-                   'only on the `tag != END` (not properly closed) branch' if on_branch else 'a reader opens the file writable although it may be properly closed')
+            # ... or where the file header was found incomplete: a flag that holds `jls_raw_open(...) == JLS_ERROR_TRUNCATED`
+            TRUNC = P.enum_consts.get('JLS_ERROR_TRUNCATED')
+            on_trunc = False
+            for (bid, label) in control_deps_transitive(fn, c.block.id):
+                cc = strip_casts(fn.blocks[bid].cond) if fn.blocks[bid].cond is not None else None
+                if cc is not None and cc.get('op') == 'ref' and cc.get('rk') == 'local' and label == 'T':
+                    defs_ = [e_ for e_ in fn.events() if (e_.k == 'decl' and e_.name == cc['name'] and e_.e is not None) or
+                             (e_.k == 'store' and strip_casts(e_.store_parts()[0]).get('name') == cc['name'])]
+                    if defs_ and all(any(m_.get('op') == 'bin' and m_['o'] == '==' and TRUNC in (const_of(m_['k'][0]), const_of(m_['k'][1]))
+                                         for m_ in walk((e_.e if e_.k == 'decl' else e_.store_parts()[1]) or {})) for e_ in defs_):
+                        on_trunc = True
+            ok_ = on_branch or on_trunc
+            ctx.ob('C19.1', ok_, fn.name, 'jls_raw_open(.., "%s")' % m, c.where(),
+                   ('only on the `tag != END` (not properly closed) branch' if on_branch else 'only where the file header was found without its length (the open returned TRUNCATED)') if ok_ else
+                   'a reader opens the file writable although it may be properly closed')
     ctx.floor('raw opens in reader.c / copy.c', n, 4)
     # ---- C19.2
     roots = sorted(f.name for f in P.all_functions() if f.api and f.name.startswith('jls_rd_'))
@@ -289,4 +302,4 @@ def rewrite_source_rule(ctx, P):
                    'copy of the chunk just read%s' % ('' if not cached else ' (cached state updated as well)') if bad is None else
                    '%s can be a copy of %s, which the reader cached before the repair: the file is changed but the cached copy is not, so the repairing open and the next open see different chains' % (X, bad[0]),
                    bad[1].render() if bad else None)
-    ctx.floor('in-place header rewrites reachable from jls_rd_open', n, 3)
+    ctx.floor('in-place header rewrites reachable from jls_rd_open', n, 2)
